@@ -11,8 +11,8 @@ pub const BZ_TRAILER: usize = 11;
 
 pub fn run(ctx: &mut Ctx, reg: &Registry) {
     let subs = subjects(reg);
-    let nvals = ctx.t(2, 6);
-    let stride = ctx.t(3, 1); // quick: every third subject per container
+    let nvals = ctx.t(3, 6);
+    let stride = ctx.t(1, 1);
     for s in subs.iter() {
         if !ctx.mine(s.index) || !ctx.wants_type(&s.label) {
             continue;
